@@ -1,10 +1,11 @@
 import DaskModel.DriverLib
-import DaskModel.Model.TreeReduce
+import DaskModel.Model.ArrayReduce
 import DaskModel.Model.BlockScan
+import DaskModel.Model.Percentile
 open Dask
 
 namespace ReduceDriver
-open Dask.TreeReduce Dask.BlockScan
+open Dask.ArrayReduce Dask.BlockScan
 
 def toOptNat? : SExp → Option (Option Nat)
   | .sym "none" => some none
@@ -123,11 +124,47 @@ def hSchedOk : Handler := handler fun args =>
   | [n] => do pure (SExp.ofBool (schedOk (← n.toNat?)))
   | _ => none
 
+/-! ### C32 -/
+open Dask.Percentile in
+def toRat? : SExp → Option Rat
+  | .list [.int n, .int d] => if d > 0 then some (mkRat n d.toNat) else none
+  | .int n => some (n : Rat)
+  | _ => none
+
+def toRats? (e : SExp) : Option (List Rat) := do (← e.toList?).mapM toRat?
+
+def ofRat (r : Rat) : SExp := .list [.int r.num, .int r.den]
+
+def toMethod? : SExp → Option Dask.Percentile.Method
+  | .sym "linear" => some .linear | .sym "lower" => some .lower | .sym "higher" => some .higher
+  | .sym "midpoint" => some .midpoint | .sym "nearest" => some .nearest | _ => none
+
+/-- `(mergepct method (finalq…) ((q… ) (v…) N)… order)`, rationals as `(num den)` or ints;
+    `order` = `stable` or the argsort permutation -/
+def hMergePct : Handler := handler fun args =>
+  match args with
+  | [m, fq, inputs, order] => do
+    let order : Option (List Nat) ← match order with
+      | .sym "stable" => some none
+      | e => (e.toNats?).map some
+    let m ← toMethod? m
+    let fq ← toRats? fq
+    let ins ← (← inputs.toList?).mapM fun i =>
+      match i with
+      | .list [q, v, n] => do pure (Dask.Percentile.Input.mk (← toRats? q) (← toRats? v) (← n.toNat?))
+      | _ => none
+    match Dask.Percentile.mergePercentilesWith order m fq ins with
+    | some (some r) => pure (.list [.sym "ok", .list (r.map ofRat)])
+    | some none => pure (.list [.sym "raised"])
+    | none => pure (.list [.sym "bad-order"])
+  | _ => none
+
 end ReduceDriver
 
 def table : List (String × Handler) := [
   ("plan", ReduceDriver.hPlan), ("treduce", ReduceDriver.hTreduce), ("argreduce", ReduceDriver.hArg),
   ("seqscan", ReduceDriver.hSeqScan), ("blelloch", ReduceDriver.hBlelloch),
-  ("blsched", ReduceDriver.hBlSched), ("schedok", ReduceDriver.hSchedOk)]
+  ("blsched", ReduceDriver.hBlSched), ("schedok", ReduceDriver.hSchedOk),
+  ("mergepct", ReduceDriver.hMergePct)]
 
 def main : IO Unit := runDriver table
